@@ -131,12 +131,75 @@ fn enum_scan(args: &[String]) {
     }
 }
 
+fn parse_hex_bytes(arg: &str) -> Vec<u8> {
+    let a: Vec<char> = arg.chars().filter(|c| !c.is_whitespace()).collect();
+    a.chunks(2).map(|p| u8::from_str_radix(&p.iter().collect::<String>(), 16).expect("hex byte")).collect()
+}
+
+/// load-bytes <hex>: load_bytes on arbitrary bytes; a panic is caught and reported as PANIC.
+fn load_bytes_cmd(args: &[String]) {
+    let bytes = parse_hex_bytes(&args[0]);
+    let r = std::panic::catch_unwind(|| rspirv::dr::load_bytes(&bytes));
+    match r {
+        Ok(Ok(m)) => {
+            use rspirv::binary::{Assemble, Disassemble};
+            println!("Ok");
+            let r2 = std::panic::catch_unwind(|| (m.assemble(), m.disassemble()));
+            match r2 {
+                Ok((a, d)) => println!("assembled {} words; disassembly {} bytes", a.len(), d.len()),
+                Err(_) => println!("PANIC in assemble/disassemble"),
+            }
+        }
+        Ok(Err(e)) => println!("Err {:?}", e),
+        Err(_) => println!("PANIC in load_bytes"),
+    }
+}
+
+/// decoder-script <hex bytes> <ops...>: ops are  w | ws:<n> | b64 | s | lim:<n> | clr | <typed request name>
+/// prints after each op: result, offset. A panic is reported as PANIC.
+fn decoder_script(args: &[String]) {
+    let bytes = parse_hex_bytes(&args[0]);
+    let ops: Vec<String> = args[1..].to_vec();
+    let r = std::panic::catch_unwind(move || {
+        let mut d = rspirv::binary::Decoder::new(&bytes);
+        for op in ops {
+            let out = if op == "w" {
+                format!("{:?}", d.word())
+            } else if let Some(n) = op.strip_prefix("ws:") {
+                format!("{:?}", d.words(n.parse().unwrap()))
+            } else if op == "b64" {
+                format!("{:?}", d.bit64())
+            } else if op == "s" {
+                format!("{:?}", d.string())
+            } else if let Some(n) = op.strip_prefix("lim:") {
+                d.set_limit(n.parse().unwrap());
+                "()".to_string()
+            } else if op == "clr" {
+                d.clear_limit();
+                "()".to_string()
+            } else if op == "source_language" {
+                format!("{:?}", d.source_language())
+            } else if op == "image_operands" {
+                format!("{:?}", d.image_operands())
+            } else {
+                "?".to_string()
+            };
+            println!("{} -> {} offset={} limit_reached={}", op, out, d.offset(), d.limit_reached());
+        }
+    });
+    if r.is_err() {
+        println!("PANIC");
+    }
+}
+
 fn main() {
     let args: Vec<String> = env::args().collect();
     match args.get(1).map(|s| s.as_str()) {
         Some("reflect-dump") => reflect_dump(),
         Some("load-words") => load_words_cmd(&args[2..]),
         Some("enum-scan") => enum_scan(&args[2..]),
+        Some("load-bytes") => load_bytes_cmd(&args[2..]),
+        Some("decoder-script") => decoder_script(&args[2..]),
         _ => {
             eprintln!("usage: vreplay <subcommand> ...");
             std::process::exit(64);
